@@ -1,9 +1,152 @@
-import LexVerif.Spec.StdFloat
+import LexVerif.Props.C12
+import LexVerif.Proof.LitBits
 /-!
-# C15 — special values and signed zero are handled consistently (property theorems)
+# C15 — specials and signed zero (model `Model.ParseNumber`, complete parser, versus `Spec.Grammar`)
+
+* `numeric_never_nan`: a numeric result is never NaN — at value level (`numberBits` is `litBits`, finite or ±∞) and
+  at syntax level (the model answers NaN only when the text after the sign *is* the NaN string and is not a number
+  of the format).
+* `special_iff`: accepted as NaN / ±infinity ⇔ after the optional sign the rest equals a configured string under the
+  format's case rule — never with `no_special` or a `None` string (both inside `Spec.specialOf`). The XOR-0x20 fold of
+  `starts_with_uncased` is case-insensitive equality *because* the option strings are letters
+  (`Proof.Grammar.xor_letter`, kernel-checked on all bytes × letters).
+* `sign_of_zero`, `sign_of_inf`: the sign of the result is the sign character of the input.
+
+Scope = that of `C12.accepts_iff_grammar_partial`: no digit separator, no base prefix, release build, something
+after the optional sign. Excluded and witnessed: a bare `-` when no digits are required (`finding_bare_minus`).
 -/
 namespace LexVerif.Props.C15
-open LexVerif.Spec
+open LexVerif LexVerif.Spec LexVerif.Model LexVerif.Proof.Grammar LexVerif.Props.C12
+open LexVerif.Proof.RoundNE
+
+/-- value level: the bits computed for a parsed `Number` are never a NaN, and carry the `Number`'s sign -/
+theorem number_bits_not_nan_and_signed (c : Cfg) (f : Fmt) (hf : WF f) (n : Number)
+    (hr : 0 < c.mantissaRadix) (hb : 0 < c.exponentBase) :
+    f.isNaN (numberBits c f n) = false ∧ f.isNeg (numberBits c f n) = n.isNegative := by
+  have key : ∀ l : FloatLit, f.isNaN (litBits f c.mantissaRadix c.exponentBase l) = false ∧
+      f.isNeg (litBits f c.mantissaRadix c.exponentBase l) = l.neg := by
+    intro l
+    obtain ⟨x, hx, he⟩ := litBits_form hf hr hb l
+    rw [he]
+    cases hl : l.neg with
+    | false =>
+      simp only [Bool.false_eq_true, if_false, Nat.add_zero]
+      exact ⟨isNaN_of_le_inf hx, (isNeg_of_le_inf hf hx).1⟩
+    | true =>
+      simp only [if_true]
+      exact ⟨by rw [isNaN_add_signBit hf]; exact isNaN_of_le_inf hx, (isNeg_of_le_inf hf hx).2⟩
+  unfold numberBits
+  split
+  · exact key _
+  · exact key _
+
+/-- **`numeric_never_nan`.** (1) the value of a numeric result is never NaN; (2) the model answers NaN only if the
+grammar does: the text after the sign is the NaN string (under the case rule), specials are enabled, and the input
+is not a number of the format. -/
+theorem numeric_never_nan (c : Cfg) (hd : c.debug = false) (hfmt : c.feats.format = false ∨ SepPrefixFree c.fmt)
+    (hr8 : c.feats.powerOfTwo = false → c.mantissaRadix ≤ 10)
+    (o : POpts) (wf : SpecialsWF o) (hlet : LettersOnly o) (s : List Nat) (hb : ∀ x ∈ s, x < 256) (fv : Bool)
+    (hbody : (splitSign s).2 ≠ []) (f : Fmt) (hf : WF f) (hr : 0 < c.mantissaRadix) (hbase : 0 < c.exponentBase) :
+    (∀ n cnt, parseFloatSyntax c o false s fv = .ok (.number n cnt) → f.isNaN (numberBits c f n) = false) ∧
+    (∀ neg cnt, parseFloatSyntax c o false s fv = .ok (.special .nan neg cnt) →
+      specialOf (cfgSyn c) o (splitSign s).2 = some true ∧
+      numberOk (cfgSyn c) (splitNumber (cfgSyn c) o (splitSign s).1 (splitSign s).2) = false) := by
+  refine ⟨fun n _ _ => (number_bits_not_nan_and_signed c f hf n hr hbase).1, fun neg cnt h => ?_⟩
+  have hv := (accepts_iff_grammar_partial c hd hfmt hr8 o wf hlet s hb fv hbody).1 _ h
+  generalize hp : Parsed.special Special.nan neg cnt = p at hv
+  cases hv with
+  | number n P hP hok hn => cases hp
+  | special t hno hsg hsp =>
+    cases t with
+    | true => exact ⟨hsp, hno⟩
+    | false => simp at hp
+
+/-- **`special_iff`.** When the grammar says "special value `t`" (the text after the sign equals a configured string
+under the case rule, specials enabled, not a number), the model's complete parser cannot answer anything else: any
+success is that special with the input's sign, and it has no `Error` exit. Conversely any special the model
+returns is the grammar's. (That the model returns at all — no panic / fault — is C10.) -/
+theorem special_iff (c : Cfg) (hd : c.debug = false) (hfmt : c.feats.format = false ∨ SepPrefixFree c.fmt)
+    (hr8 : c.feats.powerOfTwo = false → c.mantissaRadix ≤ 10)
+    (o : POpts) (wf : SpecialsWF o) (hlet : LettersOnly o) (s : List Nat) (hb : ∀ x ∈ s, x < 256) (fv : Bool)
+    (hbody : (splitSign s).2 ≠ []) :
+    -- ⇐ : the grammar's special is the only possible answer
+    (∀ t, numberOk (cfgSyn c) (splitNumber (cfgSyn c) o (splitSign s).1 (splitSign s).2) = false →
+      signOk (cfgSyn c).noPosMant (cfgSyn c).reqMantSign (splitSign s).1 = true →
+      specialOf (cfgSyn c) o (splitSign s).2 = some t →
+      (∀ p, parseFloatSyntax c o false s fv = .ok p →
+        p = .special (if t then .nan else .inf) ((splitSign s).1 == some true) s.length) ∧
+      (∀ k i, parseFloatSyntax c o false s fv ≠ .error (.err k i))) ∧
+    -- ⇒ : a special answered by the model is the grammar's
+    (∀ sp neg cnt, parseFloatSyntax c o false s fv = .ok (.special sp neg cnt) →
+      ∃ t, specialOf (cfgSyn c) o (splitSign s).2 = some t ∧ sp = (if t then .nan else .inf) ∧
+        neg = ((splitSign s).1 == some true) ∧ cnt = s.length) := by
+  obtain ⟨h1, h2⟩ := accepts_iff_grammar_partial c hd hfmt hr8 o wf hlet s hb fv hbody
+  have hs : s ≠ [] := by intro h; subst h; exact hbody rfl
+  have he : s.isEmpty = false := by cases s <;> simp_all
+  constructor
+  · intro t hno hsg hsp
+    constructor
+    · intro p hp
+      cases h1 p hp with
+      | number n P hP hok hn => rw [hP] at hok; rw [hok] at hno; cases hno
+      | special t2 hno2 hsg2 hsp2 =>
+        rw [hsp] at hsp2
+        injection hsp2 with e; subst e; rfl
+    · intro k i hh
+      have := h2 k i hh
+      unfold grammarFloatComplete grammarFloatSyn at this
+      simp only [he, Bool.false_eq_true, if_false] at this
+      simp only [cfgSyn] at hno hsg hsp
+      simp only [hno, Bool.false_eq_true, if_false, hsg, if_true, hsp] at this
+      cases t <;> simp at this
+  · intro sp neg cnt h
+    have hv := h1 _ h
+    generalize hp : Parsed.special sp neg cnt = p at hv
+    cases hv with
+    | number n P hP hok hn => cases hp
+    | special t hno hsg hsp =>
+      injection hp with e1 e2 e3
+      exact ⟨t, hsp, e1, e2, e3⟩
+
+/-- **`sign_of_zero` / sign of every numeric result**: the `Number` is negative iff the input starts with `-`, and
+that is the sign bit of the value (also for zeros: `-0`, `-0.0e5`, `-.0` give `-0.0`). -/
+theorem sign_of_zero (c : Cfg) (hd : c.debug = false) (hfmt : c.feats.format = false ∨ SepPrefixFree c.fmt)
+    (hr8 : c.feats.powerOfTwo = false → c.mantissaRadix ≤ 10)
+    (o : POpts) (wf : SpecialsWF o) (hlet : LettersOnly o) (s : List Nat) (hb : ∀ x ∈ s, x < 256) (fv : Bool)
+    (hbody : (splitSign s).2 ≠ []) (f : Fmt) (hf : WF f) (hr : 0 < c.mantissaRadix) (hbase : 0 < c.exponentBase)
+    (n : Number) (cnt : Nat) (h : parseFloatSyntax c o false s fv = .ok (.number n cnt)) :
+    n.isNegative = ((splitSign s).1 == some true) ∧ f.isNeg (numberBits c f n) = ((splitSign s).1 == some true) := by
+  have hv := (accepts_iff_grammar_partial c hd hfmt hr8 o wf hlet s hb fv hbody).1 _ h
+  have hneg : n.isNegative = ((splitSign s).1 == some true) := by
+    generalize hp : Parsed.number n cnt = p at hv
+    cases hv with
+    | number n2 P hP hok hn => injection hp with e1 e2; subst e1; exact hn.neg
+    | special t hno hsg hsp => cases hp
+  exact ⟨hneg, by rw [(number_bits_not_nan_and_signed c f hf n hr hbase).2, hneg]⟩
+
+/-- **`sign_of_inf`**: an infinity answered by the model has the sign of the input (`-inf` ↦ −∞, `inf`, `+inf` ↦ +∞) -/
+theorem sign_of_inf (c : Cfg) (hd : c.debug = false) (hfmt : c.feats.format = false ∨ SepPrefixFree c.fmt)
+    (hr8 : c.feats.powerOfTwo = false → c.mantissaRadix ≤ 10)
+    (o : POpts) (wf : SpecialsWF o) (hlet : LettersOnly o) (s : List Nat) (hb : ∀ x ∈ s, x < 256) (fv : Bool)
+    (hbody : (splitSign s).2 ≠ []) (neg : Bool) (cnt : Nat)
+    (h : parseFloatSyntax c o false s fv = .ok (.special .inf neg cnt)) :
+    neg = ((splitSign s).1 == some true) := by
+  obtain ⟨t, _, _, e, _⟩ := (special_iff c hd hfmt hr8 o wf hlet s hb fv hbody).2 _ _ _ h
+  exact e
+
+/-! ## Finding: a bare `-` -/
+
+/-- with no digits required a bare `-` is accepted as `Ok(F::ZERO)`, i.e. **+0.0** (the `.zero` result carries no
+sign), while the grammar's value for `-` is minus zero -/
+theorem finding_bare_minus :
+    (match parseFloatSyntax cfgNoFlags {} false [45] with | .ok (.zero 1) => true | _ => false) = true ∧
+    grammarFloatComplete featsRF cfgNoFlags.fmt {} [45] = .num ⟨true, [], [], 0⟩ 1 := by decide
+
+/-- non-vacuity: `-inf` through the model (STANDARD-like flags, format feature on) -/
+example : (match parseFloatSyntax ⟨featsRF, ⟨0xa0a0a0000000000000000000000000c⟩, false⟩ {} false [45, 105, 110, 102] with
+    | .ok (.special .inf true 4) => true | _ => false) = true := by decide
+
+/-! ## the plain-format special-value recogniser (`Spec.StdFloat.parseSpecial`) -/
 
 /-- the special-value recogniser never produces a number, and a NaN result never carries the sign -/
 theorem parseSpecial_not_num (o : POpts) (neg : Bool) (pos : Nat) (s : List Nat) :
